@@ -72,7 +72,7 @@ def error_matches(loaded, contracts, exc: BaseException, cid: str) -> bool:
         return type(exc) is hub.errclasses.get(cid) and ("D:" + cid + ":") in str(exc)
     if err == "instance":
         return exc is hub.errinsts.get(cid)
-    if err == "factory":
+    if err in ("factory", "method"):
         made = hub.factory_made.get(cid, [])
         return bool(made) and exc is made[-1]
     return False
